@@ -28,6 +28,10 @@ pub enum Kind {
         /// (a SearchResultDone carrying a cookie, answered by a follow-up request under a new id)
         #[serde(default)]
         paged: Option<Vec<usize>>,
+        /// 1 = through the search() convenience call (not paged); 2 = the stream is dropped after a timeout
+        /// without finish() - the timed-out id must become reusable all the same
+        #[serde(default)]
+        mode: u8,
     },
 }
 
@@ -69,16 +73,29 @@ fn op_strat() -> BoxedStrategy<Op> {
     }
     let timed_search = (0u64..300, timeout_val(), any::<bool>(), 0usize..6).prop_flat_map(|(start_ms, t, adapted, n)| {
         (vec(prop_oneof![6 => (0u64..=t.saturating_sub(2)).prop_map(Some), 1 => (t + 2..t + 50).prop_map(Some), 1 => Just(None)], n + 1), page_ends(n))
-            .prop_map(move |(gaps, paged)| Op { kind: Kind::Search { gaps, adapted, paged }, start_ms, timeout_ms: Some(t), arrival_ms: None, chained: false })
+            .prop_map(move |(gaps, paged)| Op { kind: Kind::Search { gaps, adapted, paged, mode: 0 }, start_ms, timeout_ms: Some(t), arrival_ms: None, chained: false })
     });
     let untimed_search = (0u64..300, any::<bool>(), (1usize..5).prop_flat_map(|n| (vec((0u64..400).prop_map(Some), n), page_ends(n - 1))))
-        .prop_map(|(start_ms, adapted, (gaps, paged))| Op { kind: Kind::Search { gaps, adapted, paged }, start_ms, timeout_ms: None, arrival_ms: None, chained: false });
+        .prop_map(|(start_ms, adapted, (gaps, paged))| Op { kind: Kind::Search { gaps, adapted, paged, mode: 0 }, start_ms, timeout_ms: None, arrival_ms: None, chained: false });
     prop_oneof![4 => timed_single, 2 => untimed_single, 3 => timed_search, 1 => untimed_search].boxed()
 }
 
 fn strat(_: &Ctx) -> BoxedStrategy<Case> {
-    (vec((op_strat(), proptest::bool::weighted(0.4)), 1..=8), any::<u64>())
-        .prop_map(|(ops, sched)| Case { ops: ops.into_iter().enumerate().map(|(i, (mut o, ch))| { o.chained = ch && i > 0; o }).collect(), sched })
+    (vec((op_strat(), proptest::bool::weighted(0.4), prop_oneof![3 => Just(0u8), 1 => Just(1u8), 1 => Just(2u8)]), 1..=8), any::<u64>())
+        .prop_map(|(ops, sched)| Case {
+            ops: ops
+                .into_iter()
+                .enumerate()
+                .map(|(i, (mut o, ch, md))| {
+                    o.chained = ch && i > 0;
+                    if let Kind::Search { paged, mode, .. } = &mut o.kind {
+                        *mode = if md == 1 && paged.is_some() { 0 } else { md };
+                    }
+                    o
+                })
+                .collect(),
+            sched,
+        })
         .boxed()
 }
 
@@ -118,7 +135,26 @@ async fn run_op(ldap: &mut ldap3::Ldap, i: usize, op: &Op, t0: Instant) -> OpObs
                 Err(e) => o.end = err_kind(&e),
             }
         }
-        Kind::Search { adapted, paged, .. } => {
+        Kind::Search { mode: 1, .. } => {
+            let r = ldap.search(&mk, Scope::Subtree, "(a=b)", vec!["a"]).await;
+            o.id = ldap.last_id();
+            let at = started.elapsed().as_millis() as u64;
+            match r {
+                Ok(ldap3::SearchResult(entries, res)) => {
+                    for e in entries {
+                        o.tokens.push(simops::item_token(&e).1);
+                    }
+                    o.tokens.push(res.text);
+                    o.calls.push((at, "end".into()));
+                    o.end = "ok".into();
+                }
+                Err(e) => {
+                    o.calls.push((at, err_kind(&e)));
+                    o.end = err_kind(&e);
+                }
+            }
+        }
+        Kind::Search { adapted, paged, mode, .. } => {
             let attrs = vec!["a"];
             let s = match (paged.is_some(), *adapted) {
                 (false, true) => ldap.streaming_search_with(EntriesOnly::new(), &mk, Scope::Subtree, "(a=b)", attrs).await,
@@ -153,9 +189,13 @@ async fn run_op(ldap: &mut ldap3::Ldap, i: usize, op: &Op, t0: Instant) -> OpObs
                     }
                     // the id of the request that was outstanding last (the current page)
                     o.id = s.ldap_handle().last_id();
-                    let fin = s.finish().await;
-                    if o.end == "ok" {
-                        o.tokens.push(fin.text);
+                    if *mode == 2 && o.end == "Timeout" {
+                        drop(s);
+                    } else {
+                        let fin = s.finish().await;
+                        if o.end == "ok" {
+                            o.tokens.push(fin.text);
+                        }
                     }
                 }
                 Err(e) => o.end = format!("start:{}", err_kind(&e)),
@@ -279,6 +319,14 @@ pub fn check(case: &Case, obs: &mut Obs) -> Result<(), Fail> {
                 }
             }
         }
+        // search() runs on a clone of the handle, so last_id() of the caller's handle does not name it: take the wire id
+        for (i, o) in observed.iter_mut().enumerate() {
+            if let (Ok(o), Some(Op { kind: Kind::Search { mode: 1, .. }, .. })) = (o, c.ops.get(i)) {
+                if let Some(id) = wire_ids.lock().unwrap().get(&i) {
+                    o.id = *id as i32;
+                }
+            }
+        }
         // let every scripted late reply arrive and be discarded
         tokio::time::sleep(Duration::from_secs(200_000)).await;
         quiesce().await;
@@ -360,7 +408,7 @@ pub fn check(case: &Case, obs: &mut Obs) -> Result<(), Fail> {
                 ensure!(o.t_end_ms >= want_at && o.t_end_ms <= want_at + 1, "c12:wrong-instant", "operation {} (timeout {:?} ms, response after {:?} ms) completed {} ms after its start, expected {} ms", i, op.timeout_ms, op.arrival_ms, o.t_end_ms, want_at);
                 ensure!(o.tokens == want_tokens, "c12:wrong-response", "operation {} observed {:?}, expected {:?}", i, o.tokens, want_tokens);
             }
-            Kind::Search { gaps, adapted: _, paged } => {
+            Kind::Search { gaps, adapted: _, paged, mode } => {
                 // walk the gaps: every next() is issued when the previous item was delivered
                 let mut now = 0u64;
                 let mut want_tokens = Vec::new();
@@ -398,6 +446,16 @@ pub fn check(case: &Case, obs: &mut Obs) -> Result<(), Fail> {
                     want_calls.push((now, if s + 1 == gaps.len() { "end" } else { "item" }));
                 }
                 ensure!(o.end == want_end, if want_end == "Timeout" { "c12:no-timeout" } else { "c12:spurious-timeout-or-error" }, "search {} (timeout {:?} ms, gaps {:?}) ended with {:?}, expected {:?}; next() log {:?}", i, op.timeout_ms, gaps, o.end, want_end, o.calls);
+                if *mode == 1 {
+                    // search(): only the instant and kind of the end are visible
+                    want_calls = want_calls.last().cloned().into_iter().collect();
+                    if want_end != "ok" {
+                        want_tokens.clear();
+                    }
+                    obs.label("search()-convenience-call");
+                } else if *mode == 2 && want_end == "Timeout" {
+                    obs.label("timed-out-stream-dropped-without-finish");
+                }
                 ensure!(o.calls.len() == want_calls.len() && o.calls.iter().zip(&want_calls).all(|(g, w)| g.1 == w.1 && g.0 >= w.0 && g.0 <= w.0 + 1), "c12:wrong-instant", "search {} (timeout {:?} ms, gaps {:?}): next() log {:?}, expected {:?} - the timer must restart with every received item", i, op.timeout_ms, gaps, o.calls, want_calls);
                 ensure!(o.tokens == want_tokens, "c12:wrong-response", "search {} observed {:?}, expected {:?}", i, o.tokens, want_tokens);
                 if op.timeout_ms.map(|t| now > t).unwrap_or(false) && want_end == "ok" {
